@@ -519,7 +519,28 @@ def unit_bounded_interleaved(U):
         fails.append({"case": "create_introns() and create_splice_sites() advanced in lock-step", "expected": [len(whole_i), len(whole_s)], "observed": [len(zi), len(zs)]})
     U.bounded_result("C15.bounded.interleaved", "introns / splice sites consumed lazily among other queries on the same FeatureDB == consumed at once", "2 transcripts x 5 exons; nested children() queries; two generators in lock-step", cases, fails)
 
-UNITS = [("bounded.interleaved", unit_bounded_interleaved), ("bounded.switch", unit_bounded_switch), ("bounded.after_delete", unit_bounded_after_delete), ("body", unit_body), ("introns", unit_introns), ("splice", unit_splice), ("bounded.numeric", unit_bounded_numeric)]
+def unit_bounded_inputs_unchanged(U):
+    """Bounded: interfeatures / create_introns / create_splice_sites leave the features they are given as they were - field by
+    field, every attribute value list in its order - also for features carrying the non-default options
+    (sort_attribute_values=True, keep_order=True)"""
+    import gffutils
+    fails, cases = [], 0
+    for opts in ({}, {"sort_attribute_values": True}, {"keep_order": True}, {"sort_attribute_values": True, "keep_order": True}):
+        feats = []
+        for i, (sq, a, b) in enumerate((("c1", 1, 10), ("c1", 21, 30), ("c2", 5, 9), ("c2", 15, 19))):
+            feats.append(F.Feature(seqid=sq, source="s", featuretype="exon", start=a, end=b, strand="+", attributes={"ID": ["e%d" % i], "Note": ["zeta", "alpha", "mid"], "Parent": ["t2", "t1"]}, **opts))
+        snap = [(f.seqid, f.start, f.end, f.strand, {k: list(v) for k, v in f.attributes.items()}, list(f.attributes.keys())) for f in feats]
+        db = gffutils.create_db([F.Feature(seqid="c1", featuretype="gene", start=1, end=2, attributes={"ID": ["z"]})], ":memory:", **opts)
+        for ma in (True, False):
+            cases += 1
+            list(db.interfeatures(feats, merge_attributes=ma, numeric_sort=True))
+            now = [(f.seqid, f.start, f.end, f.strand, {k: list(v) for k, v in f.attributes.items()}, list(f.attributes.keys())) for f in feats]
+            if now != snap:
+                k = [i for i in range(len(snap)) if snap[i] != now[i]][0]
+                fails.append({"case": {"options": opts, "merge_attributes": ma, "feature": k}, "expected": snap[k][4], "observed": now[k][4]})
+    U.bounded_result("C15.bounded.inputs_unchanged", "the features handed to interfeatures are unchanged afterwards (every attribute list in its order)", "4 option sets x merge_attributes on/off, 4 features on 2 seqids with unsorted multi-valued attributes", cases, fails)
+
+UNITS = [("bounded.inputs_unchanged", unit_bounded_inputs_unchanged), ("bounded.interleaved", unit_bounded_interleaved), ("bounded.switch", unit_bounded_switch), ("bounded.after_delete", unit_bounded_after_delete), ("body", unit_body), ("introns", unit_introns), ("splice", unit_splice), ("bounded.numeric", unit_bounded_numeric)]
 try:
     from standins import C15 as _S
     UNITS = UNITS + list(_S.UNITS)
